@@ -661,6 +661,22 @@ def path_shape_cases(tier, seed):
             else:
                 hist = history_restart([0, 1, 2, 3, 0]) if k % 2 else history_same_process([0, 1, 2, 3, 0], "reload")
             cases.append(_case("pathshape%d|%s" % (PATH_SETS.index(paths), store), versions, descs, hist, store))
+    # data functions whose path is a module variable: only the variable's value changes (function texts and names unchanged)
+    for style in ("var", "pathlib"):
+        for store in stores:
+            pkg = "pv%d" % k
+            k += 1
+            v0 = base_program(pkg, layout=["three", "one"][k % 2])
+            for nm in ("B", "C", "EMS"):
+                v0["fns"][v0["_ids"][nm]]["path_style"] = style
+                v0["fns"][v0["_ids"][nm]]["path_name"] = "PATH_OF_" + nm
+            v1 = gen.clone(v0)
+            for nm in ("B", "C"):
+                v1["fns"][v1["_ids"][nm]]["data_path"] += "_moved"
+            v2, _ = gen.e_set_const(v1, v1["_ids"]["C"])
+            descs = {(0, 1): {"kind": "move_data_paths", "site": ["T"]}, (1, 2): {"kind": "set_const", "site": ["T"]}, (2, 0): {"kind": "revert", "site": ["T"]}}
+            hist = history_same_process([0, 1, 2, 0, 1], "reload") if store == "memory" or k % 2 else history_restart([0, 1, 2, 0, 1])
+            cases.append(_case("pathvars:%s|%s" % (style, store), [v0, v1, v2], descs, hist, store))
     # twins: one call kept under its path and under alias paths that appear over time
     for pi, paths in enumerate(PATH_SETS[:2]):
         for store in stores:
